@@ -29,11 +29,11 @@ PROPS = {
         "variants": REL,
         "budget_s": (30, 300),
         "min_nontrivial": {"quick": 500, "thorough": 5000},
-        "must_observe": ["exhaustive_budget_sweeps", "exempt_guard_entered", "cost_above_2^62"],
+        "must_observe": ["exhaustive_budget_sweeps", "exempt_guard_entered", "cost_above_2^62", "failing_runs_swept_over_guard_windows"],
         "rule": PROG + "x random flag sets, plus directed programs whose last operation or an operator-internal cost check crosses the budget and unknown-extension softforks with declared costs around 2^62, 2^63 and 2^64 (probed at u64::MAX instead of the 5e7 stand-in). "
                 "Each program is run at budget 0 (cost C) and then at {C, C+1, 2C, u64::MAX, random>=C} (must be identical) and {C-1, C-2, C/2, 1, random<C} "
                 "(must be CostExceeded); every budget 1..C+2 exhaustively when C<=4000; when the GuardEnter hook reports a cost-exempt guard the smallest "
-                "succeeding budget is located by bisection and monotonicity asserted around it. Non-trivial: succeeded at 0 with C>=100 and >=6 budgets swept.",
+                "succeeding budget is located by bisection and monotonicity asserted around it. A run that fails at budget 0 must fail at every budget: {1, 1000, random, u64::MAX-1, u64::MAX}, every budget inside the window [entry cost-2, entry cost+declared+2] of every softfork guard the run entered (GuardEnter hook events; a guard temporarily replaces the budget), and 1..600 for a sixteenth of the other failing runs. Non-trivial: succeeded at 0 with C>=100 and >=6 budgets swept.",
         "assumptions": COMMON_ASSUMPTIONS + ["the GuardEnter hook's `exempt` field decides whether the minimal budget may exceed C"],
     },
     "C03": {
@@ -359,7 +359,7 @@ PROPS = {
         "log": True,
         "py": "pymon.c32check",
         "budget_s": (25, 300),
-        "min_nontrivial": {"quick": 2000, "thorough": 20000},
+        "min_nontrivial": {"quick": 2000, "thorough": 4000},
         "must_observe": ["sha256:ok", "keccak256:ok", "coinid:ok", "coinid:reject", "g1_multiply:ok", "g2_add:ok", "g1_negate:reject", "g2_negate:ok", "pubkey_for_exp:ok", "bls_verify:ok", "bls_verify:verify-fail",
                          "bls_pairing_identity:ok", "secp256k1_verify:ok", "secp256k1_verify:verify-fail", "secp256r1_verify:ok", "openssl_cross_checks", "g1_map_output_is_subgroup_point", "g2_map_default_dst_checked"],
         "rule": "Logged direct calls of the 18 cryptographic operators on structured argument lists: valid points, corrupted points (x>=p, off-curve, outside the subgroup, wrong/uncompressed/infinity flags, wrong lengths), scalars around 0, +-r and up to KBs, messages/DSTs of all sizes, "
